@@ -18,8 +18,8 @@ from esim.values import canon_fields
 from . import base
 
 ID = "C11"
-QUICK_RUNS = 4000
-THOROUGH_RUNS = 250000
+QUICK_RUNS = 10000
+THOROUGH_RUNS = 400000
 LEVEL = "exploration"
 RULE = ("one run = one generated program (1-3 threads) logging through FileDestination(SimFile) with up to 8 crash "
         "points drawn over all yield points (40% biased into the write/flush window; eager write-back of the "
